@@ -467,6 +467,16 @@ def gen(rng, tier):
             else:
                 data = mutate(rng, v, prev["ws"])
             prev["ws"] = v
+            if rng.random() < 0.15:
+                # a well-formed session whose client says goodbye and then keeps talking: frames behind its Close, in the same read,
+                # the next one, or a few scheduler turns into the server's reply
+                tail = b"".join(rng.choice([ws.frame(ws.OP_PING, b"late"), ws.message_frames(ws.OP_TEXT, b"after-close"), ws.close_frame(1000),
+                                            ws.frame(ws.OP_BIN, b"\x00\x01", fin=False), b"\x82\x87\x11\x22\x33\x44garbage"]) for _ in range(rng.choice([1, 2, 4])))
+                data = v[:head_end] + rng.choice([b"", ws.message_frames(ws.OP_TEXT, b"m1")]) + ws.close_frame(rng.choice([1000, 1001, None])) + tail
+                cut = len(data) - len(tail)
+                yield _base(rng, "ws.data-after-close", data, splits=rng.choice([[len(data)], [cut, len(tail)], [head_end, len(data) - head_end],
+                                                                                  [head_end, cut - head_end, len(tail)]]))
+                continue
             yield _base(rng, "ws.mutate", data)
         else:
             yield _case_grammar(rng, i)
@@ -683,7 +693,7 @@ def check(case, obs, tally):
             out.append({"clause": "crash", "sig": "C04.log-format/%s" % short.split(".")[0], "detail": text[:500]})
     if obs.handler == "exception":
         return out
-    if fam in ("h1.mutate", "random", "ws.mutate", "ws.hdr", "h1.body-framing", "ws.rejected-then-data", "h2c.upgrade"):
+    if fam in ("h1.mutate", "random", "ws.mutate", "ws.data-after-close", "ws.hdr", "h1.body-framing", "ws.rejected-then-data", "h2c.upgrade"):
         # the applications of these families never fail by themselves: a 5xx status is the server owning up to an internal error
         import re as _re5
 
@@ -693,7 +703,7 @@ def check(case, obs, tally):
             out.append({"clause": "crash", "sig": "C04.internal-error-status/%s/%s" % (fam.split(".")[0], m5.group(1).decode()),
                         "detail": "client input was answered %s (an internal error) although the application does not fail on its own; error log: %r" % (
                             m5.group(1).decode(), [r["text"][:80] for r in obs.errors][:2])})
-    if fam in ("h1.mutate", "random", "ws.mutate", "ws.hdr", "h1.body-framing"):
+    if fam in ("h1.mutate", "random", "ws.mutate", "ws.data-after-close", "ws.hdr", "h1.body-framing"):
         hint = _shadow_h11(case, obs, body_stage="server_names" not in (case.get("config") or {}))
         if hint is not None:
             tally.clause("hint")
